@@ -2,7 +2,7 @@
    Only ExtrOcamlBasic is used: bool, option, unit, list, prod, sumbool, sumor are mapped to the
    OCaml types; Z, N, positive, nat stay the extracted Coq datatypes.  No Extract Constant. *)
 From Coq Require Extraction ExtrOcamlBasic.
-From MS Require Import PyBase Buffer Bits Schc Compute Parsers Json CoapSemantic SchcBytes ParserBytes ComputeBytes.
+From MS Require Import PyBase Buffer Bits Schc Compute Parsers Json CoapSemantic SchcBytes ParserBytes ComputeBytes ManagerBytes CoapSemanticBytes.
 Extraction Language OCaml.
 Extraction "model.ml"
   b_new b_copy b_shift b_pad b_value b_getitem b_getitem_int b_add b_and b_or b_xor b_invert
@@ -15,4 +15,6 @@ Extraction "model.ml"
   buf_to_json buf_from_json mm_to_json mm_from_json field_to_json field_from_json pdesc_to_json pdesc_from_json
   rfd_to_json rfd_from_json rule_to_json rule_from_json context_to_json context_from_json
   parse_coap_semantic coap_unparse packet_parse
-  bcompress bdecompress bdecompress_c bfactory bfield_match bmatch_schc_loop.
+  bcompress bdecompress bdecompress_c bfactory bfield_match bmatch_schc_loop
+  bmatch_packet_descriptor bmatch_schc_packet bcm_compress bcm_decompress bschc_compress bschc_decompress
+  bparse_coap_semantic bcoap_unparse.
